@@ -57,7 +57,7 @@ def scenario() -> Any:
 
     hook = st.fixed_dictionaries({"async": st.sampled_from([False, True, "deferred"]), "fail_on": st.sets(st.integers(0, 7), max_size=4)})
     mw = st.dictionaries(st.sampled_from(HOOKNAMES), hook, max_size=4)
-    msg = cm.message(timeouts=(None, None, None, 0.3, "1"), acks=("sync", "async", None, "sync_fail", "async_fail"), cleanups=(0, 0, 0.2, 0.4))
+    msg = cm.message(timeouts=(None, None, None, 0.3, "1"), acks=("sync", "async", None, "sync_fail", "async_fail", "future", "deferred"), cleanups=(0, 0, 0.2, 0.4))
     return st.fixed_dictionaries({
         "A": st.integers(1, 4), "P": st.integers(0, 3),
         "ack_type": st.sampled_from(["when_received", "when_executed", "when_saved"]),
